@@ -51,12 +51,20 @@ class State(object):
         s.mark_known = []
         s.known = {}        # AST id of a decided condition -> (condition, side); valid for the rest of the path
         s.baseline = 0      # object ids below this were allocated before the harness entry
+        s.threads = None    # thread model (threads_sym.py): list of Th, frames of the running one aliased by s.frames
+        s.cur = 0; s.sched = None
 
     def fork(s):
         n = State.__new__(State)
         n.objs = dict(s.objs); n.owned = set(); s.owned = set()
         n.nextobj = s.nextobj; n.pc = list(s.pc)
-        n.frames = [f.clone() for f in s.frames]
+        if s.threads is None:
+            n.frames = [f.clone() for f in s.frames]
+            n.threads = None
+        else:
+            n.threads = [t.clone() for t in s.threads]
+            n.frames = n.threads[s.cur].frames
+        n.cur = s.cur; n.sched = s.sched
         n.inputs = list(s.inputs); n.notes = list(s.notes)
         n.decisions = list(s.decisions); n.pending = list(s.pending); n._model = s._model; n._mepoch = s._mepoch
         n.steps = s.steps; n.reach = set(s.reach); n.ubnotes = list(s.ubnotes)
@@ -105,6 +113,7 @@ class Engine(object):
         s.ext = {}
         import builtins_sym
         builtins_sym.register(s)
+        threads_sym.install(s)
         s.st0 = None
         s.table_cache = {}
         s.table_axioms = []
@@ -616,7 +625,8 @@ class Engine(object):
         if c is FnPtr:
             return [(v, i) for i in range(n)]
         if c is PInt:
-            return [(v.p, i) for i in range(n)]
+            pp = v.p
+            return [(pp, i) for i in range(n)]
         if c is Undef:
             return [None] * n
         if isinstance(v, z3.BoolRef):
@@ -826,10 +836,11 @@ class Engine(object):
                 pass
 
     def run_path(s, st):
-        frames = st.frames
         maxsteps = s.maxsteps
         while True:
-            fr = frames[-1]
+            if st.sched is not None:
+                threads_sym.do_sched(s, st)
+            fr = st.frames[-1]
             code = fr.code
             ip = fr.ip
             while True:
@@ -1488,6 +1499,9 @@ def h_ret(e, st, fr, ins):
         o = st.wobj(oid); o.live = False; o.data = None
     st.frames.pop()
     if not st.frames:
+        if st.threads is not None:
+            threads_sym.thread_exit(e, st, rv)
+            return True
         e.finish_harness(st)
     caller = st.frames[-1]
     if fr.retdst is not None:
@@ -1528,6 +1542,8 @@ def h_call(e, st, fr, ins):
         return True
     e.externs_used.add(tgt[2])
     r = tgt[1](e, st, fr, args, tgt[2])
+    if r is SWITCHED:        # the thread model rewound this call and asked for a scheduling step
+        return True
     if r is CALLED:          # the builtin pushed a frame itself (callbacks)
         st.frames[-1].retdst = ins[1]; st.frames[-1].normal = ins[4]
         return True
@@ -1539,6 +1555,7 @@ def h_call(e, st, fr, ins):
 
 CALLED = object()
 DONE = object()
+SWITCHED = object()
 
 
 def h_atomicrmw(e, st, fr, ins):
@@ -1624,4 +1641,10 @@ for _k in [k for k in HANDLERS if k.startswith('cast_')]:
 _OPF[h_select] = (2, 3, 4); _OPF[h_copy] = (2,); _OPF[h_load] = (2,); _OPF[h_store] = (2, 3); _OPF[h_gep] = (2,)
 _OPF[h_alloca] = (4,); _OPF[h_ret] = (2,); _OPF[h_atomicrmw] = (3, 4); _OPF[h_cmpxchg] = (2, 3, 4)
 _OPF[h_extractvalue] = (2,); _OPF[h_insertvalue] = (2, 3)
+h_atomicrmw_plain = h_atomicrmw; h_cmpxchg_plain = h_cmpxchg
+import threads_sym
+HANDLERS['vload'] = threads_sym.h_vload; HANDLERS['vstore'] = threads_sym.h_vstore
+HANDLERS['atomicrmw'] = threads_sym.h_atomicrmw; HANDLERS['cmpxchg'] = threads_sym.h_cmpxchg
+_OPF[threads_sym.h_vload] = (2,); _OPF[threads_sym.h_vstore] = (2, 3)
+_OPF[threads_sym.h_atomicrmw] = (3, 4); _OPF[threads_sym.h_cmpxchg] = (2, 3, 4)
 HANDLERS['_operand_fields'] = _OPF
